@@ -17,14 +17,14 @@ enum Var {
   VB1, VB2, VB3,                // bool
   VS8, VL64,                    // int8, int64
   VA, VA2, VS,                  // integer arrays (A, A2 multi-cell; S single cell)
-  VR1, VR2, VRR,                // regions: int, int, ref
+  VR1, VR2, VRR, VRB,           // regions: int, int, ref, bool
   VP, VQ, VR,                   // references
   VT1, VT2,                     // scratch ints used by probes (never in histories)
   NVARS
 };
 inline const char *var_name(int v) {
   static const char *n[] = {"x", "y", "z", "w", "v", "i", "b1", "b2", "b3", "s8", "l64", "A", "A2", "S",
-                            "R1", "R2", "RR", "p", "q", "r", "t1", "t2"};
+                            "R1", "R2", "RR", "RB", "p", "q", "r", "t1", "t2"};
   return n[v];
 }
 
